@@ -45,8 +45,13 @@ const (
 
 // map-range sites (DESIGN C14 "code read"): file suffix -> range expression source text.
 // Only ranges whose key type is string or an integer are listed (vmap.Keys sorts those).
+// Listed: the ranges of the phases that the IL and the wasm compile share
+// (ComputeTopologicalOrder, runRuntimeAudit). Not listed: back-end-only sites
+// (qbe.go `range g.mirMod.TypeIDs`, wasm/emit.go - sorted after collection) and the
+// pointer-keyed ranges of borrow.go / cfg.go.
 var mapSites = map[string][]string{
-	"internal/context_v2/context.go": {"ctx.Modules", "ctx.DepGraph"},
+	"internal/context_v2/context.go":     {"ctx.Modules", "ctx.DepGraph"},
+	"internal/pipeline/runtime_audit.go": {"p.ctx.Modules"},
 }
 
 type report struct {
